@@ -319,24 +319,31 @@ class C13(Property):
                   "every view change is notified, the resolver publishes a permutation of the view when it has at most 32 "
                   "values and a 32-element sub-multiset otherwise, and the kube EventHandler publishes exactly the current "
                   "endpoint IPs. The model is tied to subscriber.go / registry.go / subset.go / discovbuilder.go / "
-                  "eventhandler.go by white-box differential execution (go test -overlay) of generated histories.")
+                  "eventhandler.go by white-box differential execution (go test -overlay) of generated histories; the cluster's own "
+                  "machinery (Monitor / load / watch / watchStream / setupWatch / reload / Unmonitor) runs on a fake etcd client "
+                  "under closed, cancelled and compacted streams, failing and stale Gets and reconnects, and what it obtained is "
+                  "checked to be a consistent delivery in the sense of the theorem view_equals_etcd_after_any_consistent_delivery.")
     level_note = ("Trusted: Coq kernel + vm_compute; hand-written model (Go maps as association lists, map order and "
-                  "rand.Shuffle as checked oracles, getValues' snapshot cache not modelled); correspondence on generated "
-                  "histories only; etcd client / watch streams / reconnect logic / the Kubernetes informer are not modelled "
-                  "(events are fed to handleWatchEvents, handleChanges, Registry.Monitor and the handler methods directly).")
-    rule = ("five kinds of cases: container (direct OnAdd/OnDelete), discov (cluster + several containers, exclusive or not, "
-            "late joins, reloads), resolver (discovBuilder.Build end to end), subset, kube; 1..6 keys over 1..5 values (resolver: "
-            "up to 45 values), 5..60 events; non-trivial = a key changes its value and (discov/resolver) a reload snapshot "
-            "occurs, (subset) the set is larger than the bound, (kube) an update changes the IP set; distinct = canonical JSON "
-            "hash of the case")
+                  "rand.Shuffle as checked oracles); correspondence on generated histories only; the goroutines of one "
+                  "cluster are modelled sequentially per watched key - three schedules of reload / Unmonitor against a watch "
+                  "goroutine are replayed by monitors, other interleavings are not explored; the etcd client is a hand-made fake; "
+                  "Publisher is not executed; the Kubernetes informer is the real one against an API-server stub in two monitors.")
+    rule = ("six kinds of cases: container (direct OnAdd/OnDelete), discov (handleWatchEvents/handleChanges + several containers, "
+            "exclusive or not, late joins, reloads), cluster (real Registry/cluster/Subscriber/discovBuilder on a fake etcd: 1..3 "
+            "watched keys incl. nested prefixes and exact match, subscribers in three modes coming and going, 8..50 ops with stream "
+            "faults, compaction, failing/stale Gets, reconnects), resolver (discovBuilder.Build end to end), subset, kube; 1..9 keys "
+            "over 1..5 values (resolver: up to 45 values), 5..60 events; non-trivial = a key changes its value and (discov/resolver) "
+            "a reload snapshot occurs, (cluster) a subscriber exists and a fault occurs, (subset) the set is larger than the bound, "
+            "(kube) an update changes the IP set; distinct = canonical JSON hash of the case")
     trusted_base = [
         "model theories/C13/Model.v is hand-written; tie = white-box correspondence runs (harness/overlay/discov/*) on generated histories",
-        "two shim files are ADDED (not replaced) to core/discov and core/discov/internal at test-build time to reach cluster.handleWatchEvents/handleChanges from the executors",
+        "four files are ADDED (none replaced) to core/discov and core/discov/internal at test-build time: two shims to reach cluster.handleWatchEvents/handleChanges, the fake etcd (EtcdClient) and the driver of the cluster kind",
+        "cluster kind: the etcd client is a hand-made fake (revisions, history replay from WithRev, compaction error); quiescence is detected from channel lengths and goroutine stacks; the projection of etcd's history on a watched range is done in tools/props/c13.py",
         "map iteration order and rand.Shuffle enter the model as oracles observed on the implementation and validated by the model",
-        "etcd client, watch streams, reload/reconnect goroutines, Kubernetes informer and kubeBuilder's closure are not modelled",
+        "interleavings of the cluster's goroutines are not modelled (three schedules replayed by monitors); Publisher not executed",
     ]
     assumptions = ["keys/values/IPs are compared with Go string == (model: Z)",
-                   "listener calls of one watcher are sequential (one watch goroutine per key; handleChanges and handleWatchEvents do not overlap)",
+                   "listener calls of one watcher are sequential (one watch goroutine per key; handleChanges and handleWatchEvents do not overlap) - guaranteed by reload waiting for the previous generation, see F26/F28",
                    "kube: events concern the one Endpoints object selected by name, delivered in informer order (OnAdd/OnDelete carry an object covering the current IP set)"]
 
     def regen(self, ctx):
